@@ -497,6 +497,19 @@ def run_inflight(R: Recorder, case: dict[str, Any], verbose: bool = False) -> No
         await asyncio.sleep(0)
         await asyncio.sleep(0)
         out["invocations_after_second_arrival"] = len(inv)
+        if case.get("old_ends_cancelled"):
+            # the replaced (expired) invocation is still running and then ends cancelled itself - something it waited for was cancelled -
+            # while the new one finishes: the new entry is the one in the cache, a third call is answered from it
+            gates[max(gates)].set_result(None)
+            for _ in range(3):
+                await asyncio.sleep(0)
+            gates[min(gates)].cancel()
+            res = await asyncio.gather(t1, t2, return_exceptions=True)
+            n0 = len(inv)
+            r3 = (await asyncio.gather(call(1), return_exceptions=True))[0]
+            out["third_invocations"] = len(inv) - n0
+            out["third"], out["second"], out["first"] = r3, res[1], res[0]
+            return
         for k in (sorted(gates) if order == "old-first" else sorted(gates, reverse=True)):
             gates[k].set_result(None)
             await asyncio.sleep(0)
@@ -518,6 +531,12 @@ def run_inflight(R: Recorder, case: dict[str, Any], verbose: bool = False) -> No
         R.monitor("right-key", False, where={**where, "kind": f"history-{status}"}, detail=f"in-flight history ended {status}: {value!r}", case=case)
         return
     n = out["invocations_after_second_arrival"]
+    if case.get("old_ends_cancelled"):
+        R.count("replaced_invocations_that_end_cancelled")
+        ok = n == 2 and isinstance(out.get("second"), Result) and out.get("third") is out.get("second") and out.get("third_invocations") == 0
+        R.monitor("required-hit", ok, where={**where, "kind": "miss-on-required-hit", "replaced_invocation_ended_cancelled": True},
+                  detail=f"the expired, still running invocation ended cancelled ({out.get('first')!r}) after its successor had finished ({out.get('second')!r}); a third call of the key made {out.get('third_invocations')} new invocation(s) and got {out.get('third')!r}", case=case)
+        return
     if adv == exp:
         R.monitor("unexpired", None)
         return
@@ -771,6 +790,8 @@ def run(R: Recorder, tier: str, seed: int, shard: int, nshards: int) -> None:
             for exp_, adv in itertools.product((1.0, 2.5), (0.25, 0.5, 1.0, 1.5, 2.5, 3.0, 8.0)):
                 for order in ("old-first", "new-first"):
                     run_inflight(R, {"inflight": True, "flavour": flavour, "exp": exp_, "advance": adv, "release": order})
+            for exp_, adv in ((1.0, 1.5), (2.5, 3.0)):
+                run_inflight(R, {"inflight": True, "flavour": flavour, "exp": exp_, "advance": adv, "release": "new-first", "old_ends_cancelled": True})
         for flavour, teardown, bystander in itertools.product(("async", "async-method"), ("none", "cancelled", "body-fails"), ("scoped", "plain")):
             run_scoped(R, {"scoped": True, "flavour": flavour, "teardown": teardown, "bystander": bystander})
         for flavour, how in itertools.product(("async", "async-method"), ("awaited-future-cancelled", "loop-shut-down", "stale-count-success")):
